@@ -23,6 +23,7 @@ type verifC05Case struct {
 	Pause  int    `json:"pause_ms"` // pause of the backend between "observed" and the next chunk
 	HTML   bool   `json:"html"`     // text/html response (exercises the shim's body splice when enabled)
 	Config string `json:"config"`   // plain | shim | banner
+	CL     bool   `json:"content_length"` // the backend declares Content-Length and still writes the body in pieces
 }
 
 type verifC05Obs struct {
@@ -58,6 +59,13 @@ func TestVerifC05(t *testing.T) {
 			w.Header().Set("Content-Type", "text/html")
 		} else {
 			w.Header().Set("Content-Type", "application/octet-stream")
+		}
+		if c.CL {
+			total := 0
+			for _, sz := range c.Chunks {
+				total += sz
+			}
+			w.Header().Set("Content-Length", fmt.Sprint(total))
 		}
 		w.WriteHeader(200)
 		fl := w.(http.Flusher)
@@ -119,13 +127,20 @@ func TestVerifC05(t *testing.T) {
 			mu.Unlock()
 			br := bufio.NewReader(r.Body)
 			// the uploaded body is a serialised response: skip its header, then de-chunk
+			chunked := false
 			for {
 				line, err := br.ReadString('\n')
 				if err != nil || line == "\r\n" {
 					break
 				}
+				if l := strings.ToLower(line); strings.HasPrefix(l, "transfer-encoding:") && strings.Contains(l, "chunked") {
+					chunked = true
+				}
 			}
-			cr := httputil.NewChunkedReader(br)
+			var cr io.Reader = br
+			if chunked {
+				cr = httputil.NewChunkedReader(br)
+			}
 			buf := make([]byte, 64*1024)
 			total := 0
 			for {
@@ -188,7 +203,7 @@ func TestVerifC05(t *testing.T) {
 			cnt = n / 3
 		}
 		for i := 0; i < cnt; i++ {
-			c := &verifC05Case{ID: fmt.Sprintf("%s-%d", config, i), Pause: []int{0, 0, 5, 40, 150}[rng.intn(5)], HTML: rng.intn(3) == 0, Config: config}
+			c := &verifC05Case{ID: fmt.Sprintf("%s-%d", config, i), Pause: []int{0, 0, 5, 40, 150}[rng.intn(5)], HTML: rng.intn(3) == 0, Config: config, CL: i%3 == 1}
 			nc := []int{1, 2, 3, 10, 40}[rng.intn(5)]
 			if i%9 == 0 {
 				nc = 120
